@@ -189,6 +189,12 @@ def _unq(t):
     return re.sub(r"\s+", " ", t)
 
 
+def _ptr_t(t):
+    """pointee type text of a (possibly const) pointer type, else None"""
+    t = re.sub(r"\s*\bconst$", "", (t or "").strip()).rstrip()
+    return t[:-1].rstrip() if t.endswith("*") else None
+
+
 def _has(tree, pred):
     return any(pred(t) for t in lib.subtrees(tree))
 
@@ -212,8 +218,8 @@ def c18d_walk(ctx, tu, fn):
         if "mini_span" in t:
             m = re.search(r"mini_span<(.*)>$", t.strip())
             ranges[v] = ("span", _unq(m.group(1)) if m else "?", init)
-        elif t.rstrip().endswith("*"):
-            ranges[v] = ("ptr", _unq(t.rstrip()[:-1]), init)
+        elif _ptr_t(t) is not None:
+            ranges[v] = ("ptr", _unq(_ptr_t(t)), init)
     pointee = set(r[1] for r in ranges.values())
     casts = [c for _, e in evs for k in ("args", "init", "x") for c in lib.subtrees(e.get(k))
              if c[:1] == ["cast"] and c[1].rstrip().endswith("*") and _has(c[2:], is_begin)]
@@ -226,13 +232,42 @@ def c18d_walk(ctx, tu, fn):
         byte_why = "the object's bytes are read through `%s`; only unsigned char (uint8_t) reads a byte as 0..255" \
             % sorted(pointee - BYTE_T)[0]
 
+    # pointers taken from a span over (begin, size): first = span.begin()
+    span_ok = [v for v, r in ranges.items() if r[0] == "span" and r[2][:1] == ["ctor"] and len(r[2]) > 3 and len(r[2][3]) == 2
+               and lib.strip_casts(r[2][3][0])[:2] == ["param", 0] and r[2][3][1][:2] == ["param", 1]]
+    for v, d in decls.items():
+        init = lib.strip_elidable(d.get("init")) if d.get("init") is not None else None
+        if isinstance(init, list) and init[:1] == ["mcall"] and erase(init[2]) == NS + "mini_span::begin" and \
+                init[3][:1] == ["var"] and init[3][1] in span_ok and _ptr_t(d.get("type")) is not None:
+            ranges[v] = ("ptr", _unq(_ptr_t(d.get("type"))), init)
+
     def is_range(t):
-        return (t[:1] == ["var"] and t[1] in ranges) or (t[:1] == ["cast"] and _has(t[2:], is_begin))
+        return (t[:1] == ["var"] and t[1] in ranges and ranges[t[1]][0] == "ptr") or \
+            (t[:1] == ["cast"] and _has(t[2:], is_begin)) or \
+            (t[:1] == ["mcall"] and erase(t[2]) == NS + "mini_span::begin" and t[3][:1] == ["var"] and t[3][1] in span_ok)
+
+    def is_size(t):
+        """`size`, or size() of a span over (begin, size) whose size() is end_ - begin_"""
+        if t[:2] == ["param", 1]:
+            return True
+        if t[:1] == ["mcall"] and erase(t[2]) == NS + "mini_span::size" and t[3][:1] == ["var"] and t[3][1] in span_ok:
+            for m in tu.find_re(r"trompeloeil::mini_span::size$"):
+                rets = [e.get("x") for b, e in m.events() if e["e"] == "return"]
+                x = lib.strip_casts(rets[0]) if len(rets) == 1 else None
+                if not (isinstance(x, list) and x[:2] == ["b", "-"] and str(x[2]).find("::end_") >= 0 and
+                        str(x[3]).find("::begin_") >= 0):
+                    return False
+            return True
+        return False
 
     sinks = []           # (function, event, types on the way)
     idiom = None
     spans = [v for v, r in ranges.items() if r[0] == "span"]
-    if spans:
+    counted = any(b.get("term", {}).get("kind") in ("for", "while") and isinstance(b["term"].get("cond"), list) and
+                  b["term"]["cond"][:1] == ["b"] and b["term"]["cond"][1] in ("<", "!=") and
+                  b["term"]["cond"][2][:1] == ["var"] and is_size(lib.strip_casts(b["term"]["cond"][3]))
+                  for b in fn.rec["blocks"])
+    if spans and not counted:
         idiom = "span"
         v = spans[0]
         init = ranges[v][2]
@@ -292,7 +327,7 @@ def c18d_walk(ctx, tu, fn):
             if t.get("kind") not in ("for", "while"):
                 continue
             c = t.get("cond") or []
-            if not (c[:1] == ["b"] and c[1] in ("<", "!=") and c[2][:1] == ["var"] and c[3][:2] == ["param", 1]):
+            if not (c[:1] == ["b"] and c[1] in ("<", "!=") and c[2][:1] == ["var"] and is_size(lib.strip_casts(c[3]))):
                 continue
             idiom = "index"
             i = c[2][1]
